@@ -23,8 +23,8 @@ From P9 Require Import Gen.GenReplyTypes.
 Import ListNotations.
 Open Scope N_scope.
 
-Definition tag := N.
-Definition call := N.          (* identity of one send() invocation = one fcallRequest *)
+Notation tag := N (only parsing).
+Notation call := N (only parsing). (* identity of one send() invocation = one fcallRequest *)
 Notation tagmap := (Nmap call).
 
 Definition NOTAG : N := 65535.
